@@ -113,6 +113,15 @@ class AccessMonitor(Monitor):
             if not (ap <= addr and addr + n <= fp):
                 raise Violation('frame %s outside [ap, fp)' % kind, addr=addr, n=n, ap=ap, fp=fp)
             return
+        if base.kind == 'imm' and len(op) == 4:
+            # element access at an offset from a labelled object: the label must name a global data object of the state section and the
+            # access must stay inside that object (a const-section address used on the state section lands in the registers or the stack)
+            for s, e, _ in pi.globals:
+                if s <= base.val < e or (s == e == base.val):
+                    if s <= addr and addr + n <= e:
+                        return
+                    raise Violation('element %s outside the global object it is based on' % kind, addr=addr, n=n, object=(s, e))
+            raise Violation('element %s based on an address that is not a global object of the state section' % kind, addr=addr, n=n, base=base.val)
         if base.kind == 'imm':
             # direct access to a labelled object (global scalar / register): must be a global data object or a register word
             if pi.in_global(addr, n):
